@@ -30,7 +30,7 @@ def gen_dir(rng, irregular=False):
         for i, l in enumerate(lines):
             m = re.match(r"([-ox~<>] (?:P\d )?)(plain|foo|Baz_1|x1) ", l)
             if m and rng.random() < 0.3:
-                lines[i] = m.group(1) + rng.choice(["3d", "10m", "-2d", "1y", "7D", "o1", "x2"]) + " " + l[m.end():]
+                lines[i] = m.group(1) + rng.choice(["3d", "10m", "-2d", "1y", "7D", "o1", "x2", "20240301", "2024-W08", "2024-W09-5", "2024W081", "2024-3-1", "24-03-01"]) + " " + l[m.end():]
         text = "\n".join(lines)
         if irregular:
             # irregular spacing after the prefix on some ZID-less items (known finding)
